@@ -76,6 +76,7 @@ def defects():
             ch['width'] = None
             ch['dtype'] = 'float64'
             ch['layout'] = 'plain'
+            ch['cast_dtype'] = None      # with a declared cast the data would be converted, which is representable
             return True
 
     @d('three-dimensional-data', True)
@@ -84,6 +85,7 @@ def defects():
         n = ch['data'].shape[0]
         ch['data'] = np.zeros((n, 2, 2), dtype=np.float32)
         ch['layout'] = 'plain'
+        ch['cast_dtype'] = None
         return True
 
     @d('missing-dataset', True)
